@@ -1,1 +1,8 @@
-
+pub mod adapter;
+pub mod dd;
+pub mod fw;
+pub mod gen;
+pub mod refs;
+pub mod props {
+    pub mod c01;
+}
